@@ -1,5 +1,5 @@
 (* C13 - model of the lexical part of CPython 3.12 posixpath and of
-   pathlib.PurePosixPath.suffix, on strings (str = list of characters).
+   pathlib.PurePosixPath.suffix and os.path.splitext, on strings (str = list of characters).
    Definitions only; lemmas are in Proofs/C13p.v.
 
      isabs, join, normpath, abspath, basename   (Lib/posixpath.py)
@@ -128,3 +128,16 @@ Definition suffix (s : str) : str :=
       | _ => []
       end
   end.
+
+(* ---- os.path.splitext(p)[1]  (genericpath._splitext with sep '/', extsep '.') ----
+   the part of the last field from its last dot, unless only dots (or nothing)
+   precede that dot in the field *)
+Definition splitext_ext (p : str) : str :=
+  let b := basename p in
+  match last_dot_suffix b with
+  | None => []
+  | Some e =>
+      let pre := firstn (length b - length e) b in
+      if forallb (fun c => Ascii.eqb c dotc) pre then [] else e
+  end.
+
